@@ -289,7 +289,9 @@ def build_delitem(S):
                       z3.ForAll([r], z3.Implies(z3.And(r >= 0, r < ot.length), memD(r) == touch(r))), 'post')
             I2.oblige("%s/post/%s/survivors-in-order-pointing-to-same-atoms" % (tag, pl),
                       z3.And(nt.length == mD, z3.ForAll([p], z3.Implies(z3.And(p >= 0, p < mD),
-                             z3.And(*[z3.Select(cn, p) == dstI(z3.Select(co, srcD(p))) for cn, co in zip(nt.cols, ot.cols)])))), 'post')
+                             z3.And(*[z3.And(z3.Select(cn, p) == dstI(z3.Select(co, srcD(p))),
+                                             dstI(z3.Select(co, srcD(p))) >= 0, dstI(z3.Select(co, srcD(p))) < new['positions'].length)
+                                      for cn, co in zip(nt.cols, ot.cols)])))), 'post')
             I2.oblige("%s/post/%s/types-and-extra-fields-follow" % (tag, pl),
                       z3.And(nty.length == mD, nx.length == mD, z3.ForAll([p], z3.Implies(z3.And(p >= 0, p < mD),
                              z3.And(z3.Select(nty.cols[0], p) == z3.Select(oty.cols[0], srcD(p)),
